@@ -2101,7 +2101,11 @@ func (db *DB) CommitJournal(ctx context.Context, mode JournalMode) (err error) {
 	if fi, err := dbFile.Stat(); err != nil {
 		return fmt.Errorf("cannot stat database file: %w", err)
 	} else if fi.Size() == 0 {
-		db.pageSize = 0
+		// A database that has been dropped keeps its page size: it describes
+		// the empty database to replicas that still have to learn of the drop.
+		if db.Pos().TXID == 0 {
+			db.pageSize = 0
+		}
 		return db.invalidateJournal(mode)
 	}
 
